@@ -145,12 +145,15 @@ type listener struct {
 
 func (l *listener) Listen() error {
 	var err error
+	// The lock is held across the closed check and the bind, so that
+	// a concurrent Close either sees the listener or prevents it.
+	l.lock.Lock()
 	select {
 	case <-l.closeQ:
+		l.lock.Unlock()
 		return mangos.ErrClosed
 	default:
 	}
-	l.lock.Lock()
 	config := l.config
 	if config == nil {
 		l.lock.Unlock()
@@ -166,13 +169,14 @@ func (l *listener) Listen() error {
 		l.lock.Unlock()
 		return err
 	}
-	l.l = tls.NewListener(inner, config)
-	l.bound = l.l.Addr()
+	lis := tls.NewListener(inner, config)
+	l.l = lis
+	l.bound = lis.Addr()
 	l.lock.Unlock()
 
 	go func() {
 		for {
-			conn, err := l.l.Accept()
+			conn, err := lis.Accept()
 			if err != nil {
 				select {
 				case <-l.closeQ:
@@ -198,14 +202,20 @@ func (l *listener) Listen() error {
 }
 
 func (l *listener) Address() string {
-	if b := l.bound; b != nil {
+	l.lock.Lock()
+	b := l.bound
+	l.lock.Unlock()
+	if b != nil {
 		return "tls+tcp://" + b.String()
 	}
 	return "tls+tcp://" + l.addr
 }
 
 func (l *listener) Accept() (transport.Pipe, error) {
-	if l.l == nil {
+	l.lock.Lock()
+	lis := l.l
+	l.lock.Unlock()
+	if lis == nil {
 		return nil, mangos.ErrClosed
 	}
 	return l.hs.Wait()
@@ -213,11 +223,14 @@ func (l *listener) Accept() (transport.Pipe, error) {
 
 func (l *listener) Close() error {
 	l.once.Do(func() {
-		if l.l != nil {
-			_ = l.l.Close()
+		l.lock.Lock()
+		close(l.closeQ)
+		lis := l.l
+		l.lock.Unlock()
+		if lis != nil {
+			_ = lis.Close()
 		}
 		l.hs.Close()
-		close(l.closeQ)
 	})
 	return nil
 }
